@@ -28,7 +28,7 @@ INPLACE = {"iadd", "isub", "imul", "ipow", "itruediv"}
 def FLOORS(tier):
     q = tier == "quick"
     f = {"expected-keyerror": 100 if q else 3000, "value-checks": 3000 if q else 10 ** 5,
-         "alias:self-operand": 60 if q else 2000, "operand:raw-dict": 300 if q else 10 ** 4}
+         "alias:self-operand": 60 if q else 2000, "operand:raw-dict": 300 if q else 10 ** 4, "typed-coefficients": 60}
     for o in OPS:
         for ts in TYPES.values():
             for t in ts:
@@ -71,6 +71,13 @@ def case(ctx, rng, idx):
         labs = labs_mat if (L.is_matrix(T) or matrix_only) else labs_lab
         maxd = 2 if L.is_deg2(T) else 3
         terms = gen.rand_terms(rng, labs, maxd, lo=0, hi=4)
+        if rng.random() < 0.1:
+            # number-like coefficient types other than int / float
+            import numpy as np
+            from fractions import Fraction
+            conv = rng.choice([Fraction, np.float64, lambda v: np.int64(round(v) or 2)])
+            terms = {k: conv(v) for k, v in terms.items()}
+            ctx.cat("typed-coefficients")
         return gen.model_of(T, terms), ref.from_raw(kind, terms), (tn, terms)
 
     for _ in range(rng.randint(2, 4)):
